@@ -287,6 +287,7 @@ func (t *Task) runWithLocking() {
 	// check if the task is still waiting in a queue: it may have been
 	// executed or unscheduled since the handler picked it
 	if t.queueElement == nil && t.prioritizedQueueElement == nil && t.isActive() {
+		verifTaskEnd("tasks:run:skip-stale", t)
 		t.lock.Unlock()
 		return
 	}
@@ -578,6 +579,7 @@ func taskScheduleHandler() {
 			// entry that was removed or rescheduled in the meantime
 			now := time.Now()
 			if now.Before(t.executeAt) {
+				verifTaskEndAt("tasks:sh-fetch:notdue", t, now)
 				scheduleLock.Unlock()
 				continue
 			}
